@@ -616,7 +616,7 @@ package node
 //@   property C12 C03 C04
 //@   requires editPre(from, to) && m != nil
 //@   check [defaultsOnlyWhenNew] useDefault == ((strategy != editUpdate && new) || e.useDefault)
-//@   assigns open, failed, nodeWrites, writesAfterFail, fieldWrites, fieldPostChecks, nonNavChecks, from.Constraints.compiled, to.Constraints.compiled
+//@   assigns open, failed, nodeWrites, writesAfterFail, fieldWrites, fieldPostChecks, nonNavChecks, caseClears, from.Constraints.compiled, to.Constraints.compiled
 //@   ensures stepOK(result)
 
 //@ pure parentOf(m meta.Meta) meta.Meta
@@ -629,7 +629,10 @@ package node
 //@   property C09 C12
 //@   requires wfS(existing) && solid(want) && !failed
 //@   maypanic
-//@   assigns open, failed, nodeWrites, writesAfterFail, fieldWrites, fieldPostChecks, nonNavChecks, existing.Constraints.compiled
+//@   assigns open, failed, nodeWrites, writesAfterFail, fieldWrites, fieldPostChecks, nonNavChecks, caseClears, existing.Constraints.compiled
+//@   check [outsideChoiceUntouched] !valid ==> caseClears == old(caseClears) && nodeWrites == old(nodeWrites)
+//@   check [clearsWhenCaseDiffers] valid && result == nil && caseClears == old(caseClears) ==> nodeWrites == old(nodeWrites)
+//@   ensures caseClears <= old(caseClears) + 1
 //@   ensures open == old(open) && (!old(failed) ==> writesAfterFail == old(writesAfterFail))
 //@   ensures [surface] (failed && !old(failed)) ==> result != nil
 
@@ -637,7 +640,7 @@ package node
 //@   mode int
 //@   property C12 C03 C04
 //@   requires editPre(from, to) && wfSel(to) && (bubble ==> wfSelChain(to))
-//@   assigns open, failed, nodeWrites, writesAfterFail, fieldWrites, fieldPostChecks, nonNavChecks, from.Constraints.compiled, to.Constraints.compiled
+//@   assigns open, failed, nodeWrites, writesAfterFail, fieldWrites, fieldPostChecks, nonNavChecks, caseClears, from.Constraints.compiled, to.Constraints.compiled
 //@   loop 1 invariant open == old(open) + chain(to, bubble) && !failed && writesAfterFail == old(writesAfterFail) && ml != nil
 //@   ensures stepOK(err)
 
@@ -645,7 +648,7 @@ package node
 //@   mode int
 //@   property C12
 //@   requires editPre(from, to) && wfSel(to) && wfSelChain(to)
-//@   assigns open, failed, nodeWrites, writesAfterFail, fieldWrites, fieldPostChecks, nonNavChecks, from.Constraints.compiled, to.Constraints.compiled
+//@   assigns open, failed, nodeWrites, writesAfterFail, fieldWrites, fieldPostChecks, nonNavChecks, caseClears, from.Constraints.compiled, to.Constraints.compiled
 //@   ensures stepOK(err)
 
 //@ func (e editor) node(from *Selection, to *Selection, m meta.HasDataDefinitions, new bool, strategy editStrategy) error
@@ -655,14 +658,14 @@ package node
 //@   check [insertCreates] strategy == editInsert && fromChild != nil && !newChild ==> result != nil
 //@   check [updateNeverCreates] strategy == editUpdate ==> !newChild
 //@   check [createIssuesNew] newChild ==> nodeWrites >= old(nodeWrites) + 1
-//@   assigns open, failed, nodeWrites, writesAfterFail, fieldWrites, fieldPostChecks, nonNavChecks, from.Constraints.compiled, to.Constraints.compiled
+//@   assigns open, failed, nodeWrites, writesAfterFail, fieldWrites, fieldPostChecks, nonNavChecks, caseClears, from.Constraints.compiled, to.Constraints.compiled
 //@   ensures stepOK(result)
 
 //@ func (e editor) list(from *Selection, to *Selection, m *meta.List, new bool, strategy editStrategy) error
 //@   mode bv
 //@   property C12 C03 C04
 //@   requires editPre(from, to) && m != nil && from.Path != nil
-//@   assigns open, failed, nodeWrites, writesAfterFail, fieldWrites, fieldPostChecks, nonNavChecks, from.Constraints.compiled, to.Constraints.compiled
+//@   assigns open, failed, nodeWrites, writesAfterFail, fieldWrites, fieldPostChecks, nonNavChecks, caseClears, from.Constraints.compiled, to.Constraints.compiled
 //@   loop 1 invariant open == old(open) && !failed && writesAfterFail == old(writesAfterFail)
 //@   ensures stepOK(result)
 
@@ -670,7 +673,8 @@ package node
 // it works on fresh copies of the selection chain, which the entry-heap specification functions cannot follow
 //@ func (e editor) clearChoiceCase(sel *Selection, c *meta.ChoiceCase) error
 //@   trusted
-//@   assigns open, failed, nodeWrites, writesAfterFail, fieldWrites, fieldPostChecks, nonNavChecks, sel.Constraints.compiled
+//@   assigns open, failed, nodeWrites, writesAfterFail, fieldWrites, fieldPostChecks, nonNavChecks, caseClears, sel.Constraints.compiled
+//@   ensures caseClears == old(caseClears) + 1
 //@   ensures open == old(open) && ((failed && !old(failed)) ==> result != nil) && (!old(failed) ==> writesAfterFail == old(writesAfterFail))
 
 // ---- C08: Find is pure navigation ---------------------------------------------------------------------------
@@ -687,3 +691,24 @@ package node
 //@   loop 1 decreases len(segs) - i
 //@   ensures nodeWrites == old(nodeWrites) && nonNavChecks == old(nonNavChecks) && open == old(open)
 //@   ensures failed ==> result1 != nil
+
+// ---- C09: switching the case of a choice ---------------------------------------------------------------------
+// caseClears counts how often the data of a previously selected case was cleared
+//@ ghost var caseClears int
+
+// ---- C18: replace = delete, then insert at the parent; a failing delete prevents the insert --------------------
+//@ ghost var insertStarts int
+//@ func (sel *Selection) InsertFrom(fromNode Node) error
+//@   trusted
+//@   assigns open, failed, nodeWrites, writesAfterFail, fieldWrites, fieldPostChecks, nonNavChecks, insertStarts, sel.Constraints.compiled
+//@   ensures insertStarts == old(insertStarts) + 1 && open == old(open) && nodeWrites >= old(nodeWrites)
+//@ func (sel *Selection) ReplaceFrom(fromNode Node) error
+//@   mode int
+//@   property C18 C12
+//@   requires wfS(sel) && wfSelChain(sel) && sel.parent != nil && wfS(sel.parent) && !failed
+//@   requires sel.InsideList ==> dyn(sel.Path.Meta) == *meta.List
+//@   requires !sel.InsideList ==> dyn(sel.Path.Meta) == meta.HasDataDefinitions
+//@   ensures open == old(open)
+//@   ensures insertStarts <= old(insertStarts) + 1
+//@   ensures insertStarts == old(insertStarts) ==> result != nil
+//@   ensures insertStarts == old(insertStarts) + 1 ==> nodeWrites >= old(nodeWrites) + 1
